@@ -118,10 +118,10 @@ def r_typeguard(ctx):
         cands = _cast_sites(ctx, f)
         if not cands:
             continue
-        for tt, I in ctx.arms(fpath, max_depth=0) or []:
+        for tt, I in ctx.arms(fpath) or []:
             for gid, rec in sorted(I.calls.items()):
                 c = rec["callee"]
-                if "indirect" in c or (rec["node"].inst is not I.g.entry):
+                if "indirect" in c or not _own_inst(I, rec["node"].inst):
                     continue
                 if c["path"] not in cands:
                     continue
@@ -152,10 +152,23 @@ def _is_call_typeid(x):
     return isinstance(x, tuple) and x and x[0] == "call" and ("typeid" in x[1] or "type_id" in x[1])
 
 
+def _own_inst(I, inst):
+    """the entry function itself or a closure written in it (expanded in place by then / map)"""
+    while inst is not None and inst is not I.g.entry:
+        if inst.fn.get("kind") != "Closure":
+            return False
+        inst = inst.parent
+    return inst is not None
+
+
 def _cast_sites(ctx, f):
-    """local unsafe callees of f that reinterpret with an explicit target type -> extractor of that type"""
+    """local unsafe callees of f (and of the closures written in f) that reinterpret with an explicit target type -> extractor of that type"""
     out = {}
-    for b in f["blocks"]:
+    blocks = list(f["blocks"])
+    for g in ctx.fx.fn_list:
+        if g.get("kind") == "Closure" and g["path"].startswith(f["path"] + "::{closure"):
+            blocks += g["blocks"]
+    for b in blocks:
         t = b["term"]
         if t["k"] != "call" or "indirect" in t["callee"]:
             continue
